@@ -2,6 +2,7 @@ package main
 
 import (
 	"fmt"
+	"runtime/debug"
 	"go/token"
 	"go/types"
 	"sort"
@@ -42,7 +43,7 @@ func (eng *Engine) verifyFunction(fn *ssa.Function, c *FuncContract, checkLocks 
 			if se, ok := r.(specError); ok {
 				res.SpecErrors = append(res.SpecErrors, se.msg)
 			} else {
-				res.Panic = fmt.Sprint(r)
+				res.Panic = fmt.Sprint(r) + "\n" + string(debug.Stack())
 			}
 		}
 		res.Obls = e.obls
